@@ -25,6 +25,25 @@ def fileStatesFrom (i : Nat) : List FileSpec → Option (List (FileState Nat))
 
 def fileStates (files : List FileSpec) : Option (List (FileState Nat)) := fileStatesFrom 0 files
 
+/-! ## side conditions of the theorems (all decidable; the oracle reports them as tags) -/
+
+def sortedInts : List Int → Bool
+  | [] => true
+  | [_] => true
+  | a :: b :: r => decide (a < b) && sortedInts (b :: r)
+
+/-- what the TSM writer guarantees of the blocks of one key in one file: no empty block,
+    timestamps strictly ascending within and across the blocks, int64 values -/
+def fileOK (f : FileSpec) : Bool :=
+  f.blocks.all (fun b => !b.isEmpty) && sortedInts f.blocks.flatten &&
+    f.blocks.flatten.all fun ts => decide (minI64 ≤ ts) && decide (ts ≤ maxI64)
+
+def filesOK (files : List FileSpec) : Bool := files.all fileOK
+
+/-- the seek time is an int64 other than the extreme at which `t - 1` / `t + 1` wraps (F3) -/
+def seekOK (t : Int) (asc : Bool) : Bool :=
+  if asc then decide (minI64 < t) && decide (t ≤ maxI64) else decide (minI64 ≤ t) && decide (t < maxI64)
+
 /-- OrderOK: whenever the entries of two locations overlap in time, the one earlier in `seeks`
     comes from the older file.  (Nothing is required of non-overlapping locations.) -/
 def orderOK {V : Type} : List (Block V) → Bool
